@@ -149,7 +149,7 @@ fn powif_pdnum(a: f64, b: &NInt) -> NNum {
 fn pow_big_ints(a: &NInt, b: &NInt) -> NNum {
     match a.pow_maybe_recip(b) {
         (false, r) => NNum::Int(r),
-        (true, r) => NNum::from(BigRational::from(r.into_bigint()).recip()),
+        (true, r) => &NNum::from(1) / &NNum::Int(r),
     }
 }
 
